@@ -180,15 +180,13 @@ theorem store_mid (s m : State) (t : TxnId) (tid st ul dl el : Nat) (done : List
       ({ m with maxOid := max m.maxOid a.oid,
                 tindex := TwoPC.insert a.oid (m.tid, m.pos + recsSize m.tfile + m.thl) m.tindex,
                 tfile := m.tfile ++ [{ oid := a.oid, tid := m.tid,
-                                       prev := (match lookup a.oid m.index with
-                                                | some (_, p) => p
-                                                | none => 0),
+                                       prev := prevPos m.index a.oid,
                                        del := false, dlen := a.dlen, tag := a.tag }] },
        [Ev.write .tmp (recsSize m.tfile) dataHdrLen,
         Ev.write .tmp (recsSize m.tfile + dataHdrLen) a.dlen], .ok) := by
     unfold stage
-    simp only [hm.armed, hnq _ rfl]
-    simp [Rec.size]
+    simp only [hm.armed]
+    simp [Rec.size, hnq]
   have hstore : doStore m t a.oid a.serial a.dlen a.tag false =
       stage { m with maxOid := max m.maxOid a.oid } a.oid false a.dlen a.tag false := by
     unfold doStore
@@ -229,5 +227,147 @@ theorem store_mid (s m : State) (t : TxnId) (tid st ul dl el : Nat) (done : List
     rw [keys_insert, hm.tkeys]
     simp only [List.map_append, List.mem_append, List.map_cons, List.map_nil, List.mem_singleton]
     exact Or.comm
+
+def storeOp (t : TxnId) (a : StoreArg) : Op := .store t a.oid a.serial a.dlen a.tag
+
+def allOk (l : List Out) : Prop := ∀ o ∈ l, o = .ok
+
+theorem mkRecs_append (s : State) (tid : Tid) (a b : List StoreArg) :
+    mkRecs s tid (a ++ b) = mkRecs s tid a ++ mkRecs s tid b := by
+  simp [mkRecs]
+
+theorem stores_mid (s : State) (t : TxnId) (tid st ul dl el : Nat) (rest : List StoreArg) :
+    ∀ (done : List StoreArg) (m : State), Mid s m t tid st ul dl el done →
+    (∀ a ∈ rest, ∀ c p, lookup a.oid s.index = some (c, p) → a.serial = c) →
+    (∀ q, s.quota = some q →
+      s.pos + (transHdrLen + ul + dl + el) + recsSize (mkRecs s tid (done ++ rest)) ≤ q) →
+    allOk (outs m (rest.map (storeOp t))) ∧
+    Mid s (run m (rest.map (storeOp t))) t tid st ul dl el (done ++ rest) := by
+  induction rest with
+  | nil =>
+    intro done m hm _ _
+    simp only [List.map_nil, List.append_nil]
+    exact ⟨by intro o ho; simp [outs] at ho, hm⟩
+  | cons a rest ih =>
+    intro done m hm hcf hq
+    have h1 := store_mid s m t tid st ul dl el done hm a (hcf a (by simp))
+      (by
+        intro q hqq
+        have := hq q hqq
+        rw [mkRecs_append, recsSize_append] at this
+        omega)
+    have h2 := ih (done ++ [a]) _ h1.2 (fun b hb => hcf b (by simp [hb]))
+      (by simpa [List.append_assoc] using hq)
+    simp only [List.map_cons, run_cons, outs]
+    have e : done ++ a :: rest = done ++ [a] ++ rest := by simp
+    rw [e]
+    refine ⟨?_, h2.2⟩
+    intro o ho
+    simp only [List.mem_cons] at ho
+    rcases ho with ho | ho
+    · rw [ho]; exact h1.1
+    · exact h2.1 o ho
+
+/-- the transaction a clean run appends -/
+def newTxn (s : State) (tid st ul dl el : Nat) (stores : List StoreArg) : FTxn :=
+  { tid := tid, status := st, ul := ul, dl := dl, el := el, recs := mkRecs s tid stores }
+
+theorem clean_commit (s : State) (t : TxnId) (tid st ul dl el : Nat) (stores : List StoreArg)
+    (hinv : Inv s) (hc : s.closed = false) (ht : s.txn = none) (ha : s.armed = none)
+    (hul : ul ≤ 65535) (hdl : dl ≤ 65535) (hel : el ≤ 65535)
+    (hcf : ∀ a ∈ stores, ∀ c p, lookup a.oid s.index = some (c, p) → a.serial = c)
+    (hq : ∀ q, s.quota = some q →
+      s.pos + (transHdrLen + ul + dl + el) + recsSize (mkRecs s tid stores) ≤ q) :
+    let s' := run s (cleanTxn t tid st ul dl el stores)
+    allOk (outs s (cleanTxn t tid st ul dl el stores)) ∧
+    s'.txns = newTxn s tid st ul dl el stores :: s.txns ∧
+    s'.ltid = tid ∧
+    s'.pos = s.pos + (transHdrLen + ul + dl + el) + recsSize (mkRecs s tid stores) + 8 ∧
+    s'.fileLen = s'.pos ∧
+    s'.txn = none ∧ s'.commitLock = none ∧ s'.closed = false ∧
+    (∀ a ∈ stores, ∃ p, lookup a.oid s'.index = some (tid, p)) ∧
+    (∀ oid, oid ∉ stores.map (·.oid) → lookup oid s'.index = lookup oid s.index) := by
+  intro s'
+  have hb := begin_mid s t tid st ul dl el hinv hc ht ha hul hdl hel
+  have hs := stores_mid s t tid st ul dl el stores [] _ hb.2 hcf (by simpa using hq)
+  simp only [List.nil_append] at hs
+  obtain ⟨hso, hm⟩ := hs
+  -- name the intermediate states
+  have hs'def : s' = run (run (step s (.begin t tid st ul dl el)).1 (stores.map (storeOp t)))
+      [.vote t, .finish t] := by
+    show run s (cleanTxn t tid st ul dl el stores) = _
+    unfold cleanTxn
+    rw [run_cons, run_append]; rfl
+  generalize hmdef : run (step s (.begin t tid st ul dl el)).1 (stores.map (storeOp t)) = m at *
+  -- vote
+  have hvstep : step m (.vote t) =
+      ({ m with armed := none, nextpos := m.pos + (m.thl + recsSize m.tfile) + 8,
+                fileLen := max m.fileLen (m.pos + (m.thl + recsSize m.tfile) + 8) },
+       (if m.tfile = [] then [] else [Ev.write .tmp 0 (recsSize m.tfile)]) ++
+         writesFrom m.pos (votePieces m), .ok) := by
+    rw [step_vote_open m t hm.closed]
+    unfold doVote
+    simp [hm.txn, hm.armed]
+  generalize hvdef : (step m (.vote t)).1 = v at *
+  have hv : v = { m with armed := none, nextpos := m.pos + (m.thl + recsSize m.tfile) + 8,
+                         fileLen := max m.fileLen (m.pos + (m.thl + recsSize m.tfile) + 8) } := by
+    rw [← hvdef, hvstep]
+  have hcm : commits v (.finish t) := by
+    rw [hv]
+    refine ⟨hm.closed, hm.txn, ?_, ?_, ?_⟩
+    · show m.pos + (m.thl + recsSize m.tfile) + 8 ≠ 0; omega
+    · show max m.fileLen (m.pos + (m.thl + recsSize m.tfile) + 8) = m.pos + (m.thl + recsSize m.tfile) + 8
+      rw [hm.fileLen]; omega
+    · show m.pos + (m.thl + recsSize m.tfile) + 8 = m.pos + m.thl + recsSize m.tfile + 8; omega
+  have hva : v.armed ≠ some 1 := by rw [hv]; simp
+  have hf := finish_ok v t hcm hva
+  have hs'2 : s' = (step v (.finish t)).1 := by
+    rw [hs'def]; simp only [run, List.foldl_cons, List.foldl_nil]; rw [hvdef]
+  have hcore := hm.coreE
+  simp only [core, Core.mk.injEq] at hcore
+  obtain ⟨htx, hpos, hidx, _, _, _, _⟩ := hcore
+  refine ⟨?_, ?_, ?_, ?_, ?_, ?_, ?_, ?_, ?_, ?_⟩
+  · -- outputs
+    unfold cleanTxn
+    intro o ho
+    simp only [outs, List.mem_cons] at ho
+    rcases ho with ho | ho
+    · rw [ho]; exact hb.1
+    · rw [outs_append] at ho
+      simp only [List.mem_append] at ho
+      rcases ho with ho | ho
+      · exact hso o ho
+      · rw [hmdef] at ho
+        simp only [outs, List.mem_cons, List.not_mem_nil, or_false] at ho
+        rcases ho with ho | ho
+        · rw [ho, hvstep]
+        · rw [ho, hvdef, hf]
+  · rw [hs'2, hf, hv]
+    show { tid := m.tid, status := m.tstatus, ul := m.ude.1, dl := m.ude.2.1, el := m.ude.2.2,
+           recs := m.tfile : FTxn } :: m.txns = _
+    rw [hm.tidE, hm.tstatus, hm.ude, hm.tfile, htx]; rfl
+  · rw [hs'2, hf, hv]; exact hm.tidE
+  · rw [hs'2, hf, hv]
+    show m.pos + (m.thl + recsSize m.tfile) + 8 = _
+    rw [hm.thl, hm.tfile, hpos]; omega
+  · rw [hs'2, hf, hv]
+    show max m.fileLen (m.pos + (m.thl + recsSize m.tfile) + 8) = m.pos + (m.thl + recsSize m.tfile) + 8
+    rw [hm.fileLen]; omega
+  · rw [hs'2, hf]
+  · rw [hs'2, hf]
+  · rw [hs'2, hf, hv]; exact hm.closed
+  · intro a ha'
+    have hk : a.oid ∈ m.tindex.map (·.1) := (hm.tkeys a.oid).2 (List.mem_map_of_mem ha')
+    obtain ⟨vv, h1, h2⟩ := lookup_update_key m.index m.tindex a.oid hk
+    have h3 := hm.tvals a.oid vv h2
+    refine ⟨vv.2, ?_⟩
+    rw [hs'2, hf, hv]
+    show lookup a.oid (update m.index m.tindex) = _
+    rw [h1, ← h3]
+  · intro oid hoid
+    have hk : oid ∉ m.tindex.map (·.1) := fun h => hoid ((hm.tkeys oid).1 h)
+    rw [hs'2, hf, hv]
+    show lookup oid (update m.index m.tindex) = _
+    rw [lookup_update_not_key _ _ _ hk, hidx]
 
 end Proofs.TwoPC
